@@ -53,6 +53,12 @@ def run(ctx: Ctx):
               ' aggregates of a stage without being materialised (R-C03-6'
               ' single-pass discipline over transform.py / tree_fns.py)',
               c03.r6, ('chainables.transform', 'chainables.tree_fns'), 'R-C03-6', 8, min_instances=8)
+  from mlmverif.props import c18
+  ctx.include('R-C02-11', '"applying the aggregate function directly to the selected input'
+              ' columns": a column literally named like a reserved key (\'SELF\') selects'
+              ' that column, not the whole batch — only the reserved OBJECT does (R-C18-4'
+              ' reserved-key test: the candidate must be of the reserved type)', c18.r4,
+              min_instances=4)
 
 
 def r1(ctx: Ctx):
